@@ -28,7 +28,9 @@ pub fn mkfs(fs: &str,label: &str) -> Result<Box<dyn DiskFS>,String> {
         "fat" => {
             let boot = a2kit::bios::bpb::BootSector::create(&kind).map_err(e)?;
             let mut d = a2kit::fs::fat::Disk::from_img(img,Some(boot)).map_err(e)?;
-            d.format(&"".to_string(),None).map_err(e)?; Ok(Box::new(d))
+            // one of the kinds carries a volume label: the label occupies a directory entry but is not a file
+            let vol = if kname=="5.25in-ibm-dsdd9" { "VOLLBL" } else { "" };
+            d.format(&vol.to_string(),None).map_err(e)?; Ok(Box::new(d))
         },
         _ => Err(format!("unknown fs {}",fs))
     }
